@@ -89,6 +89,38 @@ def plural_null_projects(rng, n):
     return out
 
 
+def empty_value_projects(rng, n):
+    """a key whose text is empty — written `""`, or made only of references that resolve to `""` — is *defined*: the locale
+    keeps its own (empty) text and does not fall back.  x random inherits maps on en/fr/de/es and null/absent in other locales"""
+    locs = ["en", "fr", "de", "es"]
+    out = []
+    for _ in range(n):
+        inherits = {}
+        for l in locs[1:]:
+            t = rng.pick([None, None] + locs)
+            if t is not None:
+                inherits[l] = t
+        files = {}
+        for l in locs:
+            pairs = [("empty", ""), ("nothing", "$t(empty)")]
+            for k in ("suffix", "badge"):
+                r = rng.below(6) if l != "en" else 0
+                if r == 0:
+                    pairs.append((k, f"{k}-{l}"))
+                elif r == 1:
+                    pairs.append((k, ""))
+                elif r == 2:
+                    pairs.append((k, "$t(empty)"))
+                elif r == 3:
+                    pairs.append((k, "$t(nothing)$t(empty)"))
+                elif r == 4:
+                    pairs.append((k, None))
+            files[(None, l)] = proj.O(rng.shuffle(pairs))
+        out.append({"default": "en", "locales": locs, "all_locales": locs, "namespaces": None, "inherits": inherits,
+                    "files": files, "extra_cfg": False, "meta": {}})
+    return out
+
+
 def oracle(ctx, p, o, i):
     if "ok" not in o["ci"]:
         return
@@ -181,7 +213,13 @@ def run(ctx):
         p = proj.gen_project(rng, opts)
         projects.append(p)
     projects += plural_null_projects(rng, ctx.budget(300, 6000))
+    projects += empty_value_projects(rng, ctx.budget(200, 4000))
     generic_pipeline_check(ctx, [("I18nVerif.Theorems.C03", "C03_")], projects, oracle, "C03")
+    # the generated `match locale { L::x | L::defaulted… => … }` of every accessor kind (string, interpolation, number / boolean literal,
+    # range, plural, subkeys) compiled and run: a locale that falls back must be covered by an arm and render the effective locale's value
+    from . import probe
+    probe.run_render_probe(ctx, rng, n_crates=ctx.budget(1, 3), flavours=("string",), sig_prefix="fallback", per_key=1,
+                           opts={"formatted_keys": False, "long_key": False})
     ctx.assumptions += PARSER_ASSUMPTIONS
     finish_broken(ctx, f"{len(projects)} projects")
     write_evidence(ctx, RULE)
